@@ -757,11 +757,11 @@ def gen_cases(ctx, thorough):
         cases.append((s, (), "all"))          # every preference row on every start sheet
         for o in full:
             cases.append((s, (o,)))
-    for s in (starts if thorough else starts[::2]):
+    for s in (starts if thorough else starts[::3]):
         for o in sel_alphabet(s):
             cases.append((s, (o,)))
     n1 = len(cases)
-    sub = starts[::2] if thorough else [s for i, s in enumerate(starts) if i % 8 == 0]
+    sub = starts[::2] if thorough else [s for i, s in enumerate(starts) if i % 11 == 0]
     for s in sub:
         for o1, o2 in itertools.product(small, repeat=2):
             cases.append((s, (o1, o2)))
@@ -770,7 +770,7 @@ def gen_cases(ctx, thorough):
     # quick: every sheet with a declared but unused URI (there the in-use status can flip) + every 25th other
     flip = [s for s in starts if unused_declaration(s)]
     for n, s in enumerate(starts if thorough else
-                          flip[::2] + [s for i, s in enumerate(starts) if i % 25 == 7 and s not in flip]):
+                          flip[::3] + [s for i, s in enumerate(starts) if i % 40 == 7 and s not in flip]):
         sel = sel_alphabet(s)
         for o1, o2 in itertools.product(sel, NS_CRITICAL):
             cases.append((s, (o1, o2)))
